@@ -68,12 +68,29 @@ func (rb ResourceBounds) Bytes(resource Resource) []byte {
 	maxAmountBytes := make([]byte, 8)
 	binary.BigEndian.PutUint64(maxAmountBytes, rb.MaxAmount)
 	maxPriceBytes := rb.MaxPricePerUnit.Bytes()
+	// The price is a uint128 in the protocol: its word is the last 128 bits. The field itself is a
+	// felt, though, and nothing range-checks it: a value that does not fit is committed to in full, so
+	// that no bit of the stored field escapes the transaction hash.
+	priceWord := maxPriceBytes[16:]
+	if !fitsUint128(&maxPriceBytes) {
+		priceWord = maxPriceBytes[:]
+	}
 	return slices.Concat(
 		[]byte{0},
 		[]byte(resource.String()),
 		maxAmountBytes,
-		maxPriceBytes[16:], // Last 128 bits.
+		priceWord,
 	)
+}
+
+// fitsUint128 reports whether the big-endian 256-bit value has no bit set above the low 128.
+func fitsUint128(value *[32]byte) bool {
+	for _, b := range value[:16] {
+		if b != 0 {
+			return false
+		}
+	}
+	return true
 }
 
 func (rb ResourceBounds) IsZero() bool {
